@@ -133,6 +133,7 @@ def one_step(mod, kind, nd, backend, p, loop, decisions):
         if i >= len(st["used"]): st["used"].append(0)
         v = st["used"][i]
         it_.ctx.assume.append(c if v else c_not(c))
+        it_.refine_by_decision(c, bool(v))
         return ins[3] if v else ins[4]
     it.allow_symbolic_branch = brancher
     def hook(it_, f_, lab, env, prev):
@@ -196,78 +197,83 @@ def induction_harness(rep, cfg, modpath, kind, nd, backend, positions, label):
     name = {"db": "vartime double-base", "straus": "vartime Straus n=%d" % nd, "pre": "precomputed Straus 1 static + %d dynamic" % nd}[kind]
     rec = dict(harness="%s/%s: loop induction, positions %d..%d" % (cfg + ("+" + backend if backend else ""), (label + " " if label else "") + name, positions[0], positions[-1]), config=cfg,
                function={"db": "vartime_double_base::mul", "straus": "Straus::optional_multiscalar_mul (vartime)", "pre": "VartimePrecomputedStraus::optional_mixed_multiscalar_mul"}[kind], goals=[],
-               bounds="every listed loop position; accumulator a formal group element; the digits of every scalar at that position arbitrary in the NAF range; symbolic points",
+               bounds="every listed loop position; accumulator a formal group element; the digits of every scalar at that position arbitrary in the NAF range; symbolic points; every path of the loop body",
                assumptions=["the conclusion for the whole loop follows from the per-position steps by induction on the position (pure logic)", "NAF digits: odd or zero, |d| < 2^(w-1), sum d_i 2^i = s (c04naf.py)"])
-    status = "ok"; nq = 0; nsteps = 0; why = ""
+    S = dict(status="ok", why="", nq=0, nsteps=0)
     def bad(w, viol=True):
-        nonlocal status, why
-        if status == "ok" or (viol and status != "violation"): status = "violation" if viol else "inconclusive"; why = w
+        if S["status"] == "ok" or (viol and S["status"] != "violation"): S["status"] = "violation" if viol else "inconclusive"; S["why"] = w
+    def goal(g, ok, **kw): rec["goals"].append(dict(dict(goal=g, verdict="unsat" if ok else "sat", solver_s=0.0, cases=1, solver_calls=0, kind="structural"), **kw))
+    def main_one(it, st, digits, p, first):
+        if backend in ("avx2", "avx512") and "vector" not in st["fn"].name + getattr(st["fn"], "pretty", ""): raise ir.Unsupported("forced backend %s but the loop executed is %s" % (backend, st["fn"].name[-60:]))
+        if first:
+            ok0 = st["init_acc"] is not None and st["init_acc"].eq(G())
+            goal("before the loop the accumulator is the identity", ok0)
+            if not ok0: bad("accumulator is not the identity before the loop")
+            ii = st.get("init_iter")
+            oki = ii is not None and ii[0].is_const() and ii[1].is_const() and (ii[0].cval(), ii[1].cval()) == (0, 256)
+            goal("the %s loop runs over the positions 255 down to 0 (iterator (0..256).rev() at its first arrival)" % ("scan" if kind == "db" else "main"), oki)
+            if not oki: bad("the %s loop does not start at position 255: iterator state %r" % ("scan" if kind == "db" else "main", ii))
+        how, pos2, acc2 = st["post"]
+        exp = G.base("R").scale(2)
+        for b, d in digits(p): exp = exp + G.base(b).scale(d)
+        if kind == "db" and p == 0: okpos = how == "return"
+        else: okpos = how == "header" and pos2.is_const() and pos2.cval() == p - 1
+        if not okpos:
+            goal("position %d: the next position is %d" % (p, p - 1), False)
+            bad("position %d: loop continues at %r (%s), expected %d" % (p, pos2, how, p - 1))
+        diff = acc2 - exp
+        pr = smt.Problem(it.ctx)
+        for b in sorted(set(acc2.c) | set(exp.c)):
+            v, model, dt, info = pr.check(Cond("cmp", "ne", diff.c.get(b, ZERO), ZERO), timeout_s=60, split=False); S["nq"] += 1
+            if v != "unsat":
+                rec["goals"].append(dict(goal="position %d path %s: coefficient of %s in accumulator' == 2R + sum d_p P" % (p, "".join(map(str, st["used"])), b), verdict=v, solver_s=round(dt, 3), kind="QF_LIA", **info))
+                if v == "sat": bad("position %d: accumulator' differs from 2R + sum d_p P in the coefficient of %s: %s with %s" % (p, b, str(diff.c.get(b, ZERO))[:200], {k: model[k] for k in sorted(model or {})[:12]}))
+                else: bad("solver verdict %s at position %d" % (v, p), viol=False)
+    def scan_one(it, st, digits, p):
+        how, val = st["post"][0], st["post"][1]
+        ds = [d for _, d in digits(p)]
+        pr = smt.Problem(it.ctx)
+        if how == "continue":
+            okc = val.is_const() and val.cval() == p
+            viol = c_or(*[Cond("cmp", "ne", d, ZERO) for d in ds]) if len(ds) > 1 else Cond("cmp", "ne", ds[0], ZERO)
+            v, model, dt, info = pr.check(viol, timeout_s=60, split=False); S["nq"] += 1
+            if not okc or v != "unsat":
+                rec["goals"].append(dict(goal="scan at %d moves on only if both digits are zero, to position %d" % (p, p - 1), verdict="sat" if (not okc or v == "sat") else v, solver_s=round(dt, 3), kind="QF_LIA", **info))
+                bad("scan at position %d skips a non-zero digit (%s) or moves to %r" % (p, {k: (model or {})[k] for k in sorted(model or {})[:6]}, val), viol=(not okc or v == "sat"))
+        else:
+            oki = val.is_const() and val.cval() == p
+            if not oki:
+                goal("scan leaves at position %d with i = %d" % (p, p), False)
+                bad("scan leaves at position %d with i = %r" % (p, val))
+    def all_paths(p, loop, fn_one):
+        dec = []
+        while True:
+            it, st, digits = one_step(mod, kind, nd, backend, p, loop, dec); S["nsteps"] += 1
+            if st["fn"] is None or st["post"] is None: raise ir.Unsupported("target loop not reached / left unexpectedly (position %d, %s step)" % (p, loop))
+            fn_one(it, st, digits)
+            d = st["used"][:]
+            while d and d[-1] == 1: d.pop()
+            if not d or S["status"] == "violation": break
+            if len(d) > 16: raise ir.Unsupported("more than 16 nested data-dependent branches in one loop iteration")
+            d[-1] = 1; dec = d
     try:
         mod = module(modpath)
+        firsts = [True]
         for p in positions:
-            # ---- main loop step
-            it, st, digits = one_step(mod, kind, nd, backend, p, "main", [])
-            nsteps += 1
-            if st["fn"] is None or st["post"] is None: raise ir.Unsupported("target loop not reached (position %d)" % p)
-            if backend in ("avx2", "avx512") and "vector" not in st["fn"].name + getattr(st["fn"], "pretty", ""): raise ir.Unsupported("forced backend %s but the loop executed is %s" % (backend, st["fn"].name[-60:]))
-            if p == positions[0]:
-                ok0 = st["init_acc"] is not None and st["init_acc"].eq(G())
-                rec["goals"].append(dict(goal="before the loop the accumulator is the identity", verdict="unsat" if ok0 else "sat", solver_s=0.0, cases=1, solver_calls=0, kind="structural"))
-                if not ok0: bad("accumulator is not the identity before the loop")
-                ii = st.get("init_iter")
-                oki = ii is not None and ii[0].is_const() and ii[1].is_const() and (ii[0].cval(), ii[1].cval()) == (0, 256)
-                rec["goals"].append(dict(goal="the %s loop runs over the positions 255 down to 0 (iterator (0..256).rev() at its first arrival)" % ("scan" if kind == "db" else "main"), verdict="unsat" if oki else "sat", solver_s=0.0, cases=1, solver_calls=0, kind="structural"))
-                if not oki: bad("the %s loop does not start at position 255: iterator state %r" % ("scan" if kind == "db" else "main", ii))
-            how, pos2, acc2 = st["post"]
-            exp = G.base("R").scale(2)
-            for b, d in digits(p): exp = exp + G.base(b).scale(d)
-            if kind == "db" and p == 0: okpos = how == "return"
-            else: okpos = how == "header" and pos2.is_const() and pos2.cval() == p - 1
-            if not okpos:
-                rec["goals"].append(dict(goal="position %d: the next position is %d" % (p, p - 1), verdict="sat", solver_s=0.0, cases=1, solver_calls=0, kind="structural"))
-                bad("position %d: loop continues at %r (%s), expected %d" % (p, pos2, how, p - 1))
-            diff = acc2 - exp
-            pr = smt.Problem(it.ctx)
-            for b in sorted(set(acc2.c) | set(exp.c)):
-                v, model, dt, info = pr.check(Cond("cmp", "ne", diff.c.get(b, ZERO), ZERO), timeout_s=60, split=False); nq += 1
-                if v != "unsat":
-                    rec["goals"].append(dict(goal="position %d: coefficient of %s in accumulator' == 2R + sum d_p P" % (p, b), verdict=v, solver_s=round(dt, 3), kind="QF_LIA", **info))
-                    if v == "sat": bad("position %d: accumulator' differs from 2R + sum d_p P in the coefficient of %s: %s with %s" % (p, b, str(diff.c.get(b, ZERO))[:200], {k: model[k] for k in sorted(model or {})[:12]}))
-                    else: bad("solver verdict %s at position %d" % (v, p), viol=False)
-            if status == "violation": break
-            # ---- scan loop step (double-base)
+            def m1(it, st, digits, p=p):
+                main_one(it, st, digits, p, firsts[0]); firsts[0] = False
+            all_paths(p, "main", m1)
+            if S["status"] == "violation": break
             if kind == "db":
-                decisions = []
-                while True:
-                    it, st, digits = one_step(mod, kind, nd, backend, p, "scan", decisions); nsteps += 1
-                    if st["post"] is None: raise ir.Unsupported("scan loop: neither header reached from position %d" % p)
-                    how, val = st["post"][0], st["post"][1]
-                    ds = [d for _, d in digits(p)]
-                    pr = smt.Problem(it.ctx)
-                    if how == "continue":
-                        okc = val.is_const() and val.cval() == p
-                        viol = c_or(*[Cond("cmp", "ne", d, ZERO) for d in ds]) if len(ds) > 1 else Cond("cmp", "ne", ds[0], ZERO)
-                        v, model, dt, info = pr.check(viol, timeout_s=60, split=False); nq += 1
-                        if not okc or v != "unsat":
-                            rec["goals"].append(dict(goal="scan at %d moves on only if both digits are zero, to position %d" % (p, p - 1), verdict="sat" if (not okc or v == "sat") else v, solver_s=round(dt, 3), kind="QF_LIA", **info))
-                            bad("scan at position %d skips a non-zero digit (%s) or moves to %r" % (p, {k: (model or {})[k] for k in sorted(model or {})[:6]}, val), viol=(not okc or v == "sat"))
-                    else:
-                        oki = val.is_const() and val.cval() == p
-                        # leaving at j with zero digits is allowed only at the end of the range (j = 0)
-                        if not oki:
-                            rec["goals"].append(dict(goal="scan leaves at position %d with i = %d" % (p, p), verdict="sat", solver_s=0.0, cases=1, solver_calls=0, kind="structural"))
-                            bad("scan leaves at position %d with i = %r" % (p, val))
-                    d = st["used"][:]
-                    while d and d[-1] == 1: d.pop()
-                    if not d or status == "violation": break
-                    d[-1] = 1; decisions = d
-            if status == "violation": break
+                all_paths(p, "scan", lambda it, st, digits, p=p: scan_one(it, st, digits, p))
+                if S["status"] == "violation": break
         # ---- exit step of iterator loops: the exhausted iterator returns the accumulator
-        if kind != "db" and status == "ok":
-            it, st, digits = one_step(mod, kind, nd, backend, 0, "exit", []); nsteps += 1
+        if kind != "db" and S["status"] == "ok":
+            it, st, digits = one_step(mod, kind, nd, backend, 0, "exit", []); S["nsteps"] += 1
             okx = st["post"] is not None and st["post"][0] == "return" and st["post"][2].eq(G.base("R"))
-            rec["goals"].append(dict(goal="when the positions are exhausted the function returns the accumulator unchanged", verdict="unsat" if okx else "sat", solver_s=0.0, cases=1, solver_calls=0, kind="polynomial identity mod p"))
+            goal("when the positions are exhausted the function returns the accumulator unchanged", okx, kind="polynomial identity mod p")
             if not okx: bad("exit of the loop does not return the accumulator: %r" % (st["post"],))
+        status, why = S["status"], S["why"]
         if status == "violation":
             # replay on the natively built code: scalars with high / structured bit patterns against sum s_i P_i by the specification's arithmetic
             from checks.c04 import native_replay
@@ -278,12 +284,13 @@ def induction_harness(rep, cfg, modpath, kind, nd, backend, positions, label):
             if ok is True: rec["reproduced"] = True
             elif ok is False: status = "inconclusive"; why = "loop-level counterexample (%s) not reproduced natively: %s" % (why[:200], det)
             else: rec["reproduced"] = None; why += " | native replay unavailable: " + str(det)
-        rec["goals"].append(dict(goal="%d loop positions: accumulator' == 2R + sum_k d_{k,p} P_k and position' == p-1%s (%d loop-body executions, %d solver queries)" % (len(positions), "; scan loop skips only zero digits" if kind == "db" else "", nsteps, nq),
-                                 verdict="unsat" if status == "ok" else ("sat" if status == "violation" else "unknown"), solver_s=0.0, cases=nsteps, solver_calls=max(nq, 1), kind="QF_LIA summary"))
+        rec["goals"].append(dict(goal="%d loop positions: accumulator' == 2R + sum_k d_{k,p} P_k and position' == p-1 on every path of the body%s (%d loop-body executions, %d solver queries)" % (len(positions), "; scan loop skips only zero digits" if kind == "db" else "", S["nsteps"], S["nq"]),
+                                 verdict="unsat" if status == "ok" else ("sat" if status == "violation" else "unknown"), solver_s=0.0, cases=S["nsteps"], solver_calls=max(S["nq"], 1), kind="QF_LIA summary"))
         rec["status"] = status
         if why: rec["why"] = why
     except (TableLemmaFailed, DigitOutOfRange) as e:
-        rec["status"] = "violation"; rec["why"] = "%s: %s" % (type(e).__name__, e)
+        from checks.c04 import lemma_failure
+        lemma_failure(rec, e, cfg, {"db": "vartime_double", "straus": "vartime_multiscalar", "pre": "precomputed"}[kind], max(nd, 1))
     except ir.Unsupported as e:
         rec["status"] = "inconclusive"; rec["why"] = "unsupported IR: " + str(e)[:500]
     except PanicReached as e:
